@@ -8,7 +8,7 @@ LEVEL_TEXT = ("SIR_pair_based_pure_IC must equal the exact master-equation expec
               "histogram of the bound, R(t+1)=R(t)+I(t) exactly; with tau=0 every entry point decays as I(0)exp(-gamma t) with S constant; with gamma=0 SIS and SIR siblings give the same S(t).")
 LEVEL_NOTE = "trusted: the reference generator in eonmc/fam_exact.py and scipy.linalg.expm; 't->infinity' is tmax=400 with residual I<1e-9 N (non-converged cases are counted and skipped); trees beyond the bound are not explored"
 RULE = "one evaluation = one (tree, weights, seeds) / (histogram, rho, rates) / (graph, request, entry point); non-trivial = all (every case has an infected node and an edge)"
-BOUNDS = {"quick": "all trees on 2..5 nodes; single seeds, seed pairs, n cases with an initially recovered node; 5 weight modes; every second case repeated with a permuted explicit nodelist; histograms kmax<=3, counts<=2 x 3 rho x 3 rate pairs, plus 3 general initial conditions each (degree-dependent Sk0, explicit/default phiS0, phiR0 in {0,0.15,0.2}) against EBCM(phiS0,phiR0); limits on all graphs with an edge on <=4 nodes",
+BOUNDS = {"quick": "all trees on 2..5 nodes; single seeds, seed pairs, n cases with an initially recovered node; 5 weight modes; every second case repeated with a permuted explicit nodelist; histograms kmax<=3, counts<=2 x 3 rho x 3 rate pairs, plus 3 general initial conditions each (degree-dependent Sk0, explicit/default phiS0, phiR0 in {0,0.15,0.2}) against EBCM and EBCM_discrete(phiS0,phiR0); limits on all graphs with an edge on <=4 nodes",
           "thorough": "all trees on <=6 nodes (+7 nodes, 3 seed placements); histograms kmax<=4 counts<=3 with 4 general initial conditions each; limits on 5-node graphs"}
 ASSUMPTIONS = ["master equation reference (eonmc/fam_exact.py) is correct", "scipy.linalg.expm accuracy"]
 
